@@ -32,6 +32,7 @@ P = {'id': 'C01',
               'ht_deserialize_serialize',
               'ht_serialized_decodes',
               'wf_table_prefix_free',
+              'tree_serialized_decodes',
               'c_deserialize_serialize',
               'ctx_serialized_decodes',
               'xn_serialized_decodes',
